@@ -82,6 +82,8 @@ def run(ctx):
     ctx.rule("R6", "one coordinate system: once the already-read prefix has been cut off, the fragment's original `offset` is not used "
                    "again — inside the placement loop every position is derived from the cursor `start` (which corresponds to the "
                    "remaining `data`)")
+    ctx.rule("R7", "the cursor never starts below the read frontier: the value `start` has when the placement loop is entered is computed "
+                   "from both the fragment's offset and `nread` (max), so nothing is stored below nread")
     ctx.rule("R4", "contiguity gate: readers take data out of a segment only under `segment.offset == nread`")
     ctx.rule("R5", "read cursor coupling: nread (and the offset of a partially read segment) advance by exactly the length handed out")
     rb = ctx.anchor("R1", RB + "::recv")
@@ -177,6 +179,32 @@ def run(ctx):
                "reads of the parameter `offset` inside the loop: %s — `data` has been advanced past the bytes already read, so only "
                "`start` names the stream position of its first byte; an overlap test computed from `offset` misses overlaps by "
                "nread - offset bytes and stores overlapping segments (the reader then stalls for good)" % (["bb%d:L%s" % u for u in uses] or "none"))
+    if rb:
+        # ------------------------------------------------------------ R7
+        heads7 = sorted(set(v for u in rb.live_blocks() for v in rb.succ(u) if rb.dominates(v, u)))
+        in_loop7 = set(x for x in rb.live_blocks() if any(x in rb.reachable_from(h) and h in rb.reachable_from(x) for h in heads7))
+        st = set(rb.locals_named("start"))
+        srcs = set()
+        ndefs = 0
+        for l in st:
+            for (bb, jj, rv) in rb.defs_of(l):
+                if bb in in_loop7:
+                    continue
+                ndefs += 1
+                ops = rv["args"] if jj == "term" else rvalue_operands(rv)
+                for o in ops:
+                    for pl in deep_places(rb, o, 5):
+                        srcs |= set(place_fields(pl))
+                        if 1 <= pl[0] <= rb.argc:
+                            srcs.add("arg:%s" % rb.local_name(pl[0]))
+                        for og in rb.trace_local(pl[0]):
+                            if og[0] == "arg":
+                                srcs.add("arg:%s" % rb.local_name(og[1]))
+        ctx.ob("R7", "%s|`start` enters the loop as a function of offset and nread" % rb.short,
+               ndefs >= 1 and "nread" in srcs and "arg:offset" in srcs, rb.where(),
+               "definitions of `start` before the loop: %d; they depend on: %s — if the cursor can start below nread the part of a "
+               "retransmitted fragment that survives the trim is stored under an offset the reader has already passed: it is never "
+               "delivered, sits at the wrong position and blocks everything behind it" % (ndefs, sorted(srcs)))
     # ---------------------------------------------------------------- R4 / R5 readers
     GATE = "field:RecvBuf.nread Eq field:Segment.offset"
     tr = ctx.anchor("R4", RB + "::try_read")
